@@ -377,6 +377,24 @@ pub fn run(tier: Tier) -> i32 {
                     }
                 }
             }
+            // the frame read from a reader that is not at position 0 (a frame was decoded from the same reader
+            // before, or the caller skipped a header): the window is the bytes read for THIS frame
+            for skip in [1usize, 14] {
+                let prefix = [0x8d, 0x40, 0x62, 0x1d, 0x58, 0xc3, 0x82, 0xd6, 0x90, 0xc8, 0xac, 0x28, 0x63, 0xa7][..skip].to_vec();
+                let mut stream = prefix.clone();
+                stream.extend_from_slice(bytes);
+                let got = crate::common::guarded(move || {
+                    let mut r = crate::e3::Scripted::new_at(&stream, skip, &[]);
+                    adsb_deku::Frame::from_reader(&mut r).map(|f| f.crc)
+                });
+                loc.inc("reader_offset_cases");
+                match got {
+                    Ok(Ok(c)) if c == want => {}
+                    Ok(Ok(c)) => loc.viol("crc-window", format!("{}:crc-reader-at-offset", lay.leaf), format!("frame={} prefix={} script=", hex(bytes), hex(&prefix)), format!("{want:06x}"), format!("{c:06x}")),
+                    Ok(Err(e)) => loc.viol("crc-window", format!("{}:crc-reader-at-offset", lay.leaf), format!("frame={} prefix={} script=", hex(bytes), hex(&prefix)), format!("{want:06x}"), format!("Err({e})")),
+                    Err(_) => {}
+                }
+            }
             // a transient Interrupted before any single read call must not change the window either
             // (on the first three cases of every work unit: the base frame and two bit flips)
             if loc.counts.get("interrupted_reader_cases").copied().unwrap_or(0) < 72
